@@ -307,8 +307,6 @@ MovePrefixReq(st, prefix, target, source) ==
 (***************************************************************************)
 (* Creation rules                                                          *)
 (***************************************************************************)
-RamSet(ram, anchor, rule) == [a \in DOMAIN ram \cup {anchor} |-> IF a = anchor THEN rule ELSE ram[a]]
-RamDel(ram, anchor) == [a \in DOMAIN ram \ {anchor} |-> ram[a]]
 
 RECURSIVE RulePages(_, _, _, _, _, _)
 RulePages(st, ram, def, ls, i, acc) ==
@@ -351,7 +349,6 @@ InstallRules(st, ram, def, rules, i) ==    \* rules: sequence of [anchor, rule]
   ELSE LET a == AddRuleReq(st, ram, def, rules[i].anchor, rules[i].rule, TRUE) IN
        InstallRules(a.res.st, a.ram, def, rules, i + 1)
 
-EmptyRam == [a \in {} |-> 0]
 FreshIndex(def, rules) == InstallRules(EmptyStore, EmptyRam, def, rules, 1)
 
 RECURSIVE RamOfRules(_)
